@@ -99,6 +99,9 @@ def payloads(tier):
 def cases(tier, seed):
     depth = 1 if tier == "quick" else 2
     yield from ctxgen.cases_for(payloads(tier), depth, "c07")
+    if tier != "quick":
+        # thorough: every depth-1 case also behind each independent, legal noise prefix (ctxgen.NOISE): the verdict must not change
+        yield from ctxgen.cases_for(payloads(tier), 1, "c07", noise=tuple(ctxgen.NOISE), noise_only=True)
     # the scope machine: every statement sequence over {def, def fin, shadowing def, assign, typed uses, 7 block kinds} within a size bound
     yield from scopeseq.cases("C07", tier)
 
